@@ -91,6 +91,20 @@ MC = {
                           "cfg": dec_cfg("TokCAP", "FirstCAP", 2, ["Resync"], caps="CapsNeg", paylen=5, fallback="drop")},
 }
 
+PROOFS = {
+    # unbounded side-proofs with Apalache (inductive invariants), spec/proofs/*.tla
+    "pad_counter": {"module": "PadCounter",
+                    "claim": "for every payload length n the iterator encoder's 8-bit wrapping pad counter yields a pad count p <= 3 with (n + p) % 4 = 0",
+                    "runs": [("base", ["--init=Init", "--inv=IndInv", "--length=0"]), ("step", ["--init=IndInit", "--inv=IndInv", "--length=1"])]},
+    "matcher": {"module": "Matcher",
+                "claim": "after any number of noise bytes the repaired start-sequence matcher holds exactly the longest suffix that is a prefix of the start sequence, and ndisc + ninit = bytes since the boundary; "
+                         "the matcher as found (drop) fails the induction step",
+                "runs": [("base", ["--cinit=CInit", "--init=Init", "--inv=IndInv", "--length=0"]),
+                         ("step", ["--cinit=CInit", "--init=IndInit", "--inv=IndInv", "--length=1"]),
+                         ("step_as_found", ["--cinit=CInitDrop", "--init=IndInit", "--inv=IndInv", "--length=1"])],
+                "expect_fail": ["step_as_found"]},
+}
+
 GEN = {
     # TLC prints Encode(F, c) for every abstract file and every combination of encoding choices (binding B for C03)
     "grammar_files": {"module": "MC_Grammar", "workers": 4, "cfg": lambda tier: grammar_cfg(emit="TRUE", invs=("Emit",))},
@@ -137,10 +151,12 @@ PROPS = {
                        {"cmd": "c05", "judge": "J_Conf", "profile": "checked", "reuse": True, "drift": True}]),
     "C07": dict(T("same payload families as C01; both encoders compared with Frame.Canonical; ArrayBuf capacities around the frame length; 5 extra next() calls after the iterator ended"),
                 mc={"quick": ["encoders"], "thorough": ["encoders"]},
+                proofs=["pad_counter"],
                 steps=[{"cmd": "c07", "judge": "J_C07"}]),
     "C08": dict(T("10 idle histories (new, after ok / invalid message / invalid escape - also with error bytes ending in 0x1b -, after reset / finalize) x all noise strings over {1b,01,55} up to length 7/9 + random noise over all byte values (incl. partial start sequences) x 5 payloads; every cut point of 265+ frames "
                   "followed by 3 frames; the antecedent (no start sequence in noise / no escape in progress) is evaluated by the monitor"),
                 mc={"quick": ["resync_noise"], "thorough": ["resync_noise"]},
+                proofs=["matcher"],
                 steps=[{"cmd": "c08", "judge": "J_C08"}]),
     "C14": dict(T("for every boundary event (ok, oom, invalid message, invalid escape, finalize, reset) in HIST / INFRAME / history-prefixed ADV streams, corpus and mutations, and capacities "
                   "{growable,0,1,2,5}: events of the continuing decoder vs. a new decoder on the same continuation"),
@@ -196,6 +212,7 @@ PROPS = {
     "C17": dict(T("every stream of ADV / INFRAME / HIST / NOISE, corpus, mutations with push+finalize and SmlReader (iterator, io::Read); noise runs of 255..2^17+1 bytes; "
                   "both the overflow-checked and the wrapping (release) build; record = (length, event list)"),
                 mc={"quick": ["tiles_adv", "tiles_hist"], "thorough": ["tiles_adv", "tiles_hist", "resync_noise"]},
+                proofs=["matcher"],
                 steps=[{"cmd": "c17", "judge": "J_C17", "profile": "wrapping"}, {"cmd": "c17", "judge": "J_C17", "profile": "checked"}]),
 }
 
@@ -241,9 +258,9 @@ MANIFEST_TEXT = {
     "C05": _t("TLC checks TypeOK/BoundaryFresh of the decoder spec under every interleaving of push/finalize/reset with capacities {0,1,2,inf} and the encoder spec never reaching its assert arms; "
               "traces of the overflow-checked real build (panics recorded as events) are judged for absence of panic/runaway and for usability after every history.", "5/C05", "TLC model checking + TLC-judged trace validation (J_C05)"),
     "C07": _t("TLC checks both encoder state machines against Frame.Canonical (prefix, completeness, fusedness, pad counter, OOM iff capacity < frame length, termination under WF) and judges the real "
-              "encoders' output for ~20k payloads, long ones in run-length form.", "5/C07", "TLC model checking (incl. liveness) + TLC-judged trace validation (J_C07)"),
+              "encoders' output for ~20k payloads, long ones in run-length form.", "5/C07", "TLC model checking (incl. liveness) + Apalache inductive side-proof of the pad counter + TLC-judged trace validation (J_C07)"),
     "C08": _t("TLC checks MatcherExact and Resync on the decoder spec over noise/frames from every idle history, and judges the real decoder on all noise strings over {1b,01,55} up to the bound, random noise "
-              "and every cut point of 265+ frames; the antecedent is evaluated by the monitor with the spec's own decoder.", "5/C08", "TLC model checking + TLC-judged trace validation (J_C08)"),
+              "and every cut point of 265+ frames; the antecedent is evaluated by the monitor with the spec's own decoder.", "5/C08", "TLC model checking + Apalache inductive side-proof of the start matcher (unbounded noise) + TLC-judged trace validation (J_C08)"),
     "C14": _t("TLC checks BoundaryFresh and IdleStepEq (an idle spec decoder is state-equal to a new one and answers every byte identically) and judges, for every boundary in the recorded streams, "
               "continuation-vs-fresh equality of the real decoder for 5 buffer configurations.", "5/C14", "TLC model checking + TLC-judged differential trace validation (J_C14)"),
     "C15": _t("TLC checks LoopsAgree (push+finalize, decode(), DecoderReader::next agree modulo Events.Norm) on the specification's three driving loops for every cut of the base streams, and judges the grouped observations of 11-14 real front-end configurations per stream with the normalisation the property allows (Events.Norm).", "5/C15", "TLC model checking of the front-end loops + TLC-judged differential trace validation (J_C15)"),
@@ -254,5 +271,5 @@ MANIFEST_TEXT = {
               "TLC model checking (refinement) + TLC-generated behaviours replayed into the code + TLC-judged trace validation (J_C18)",
               "Trusted: TLC, ArrayBuf.tla's ideal vector, std slice Debug; capacities limited to the instantiations compiled into the harness."),
     "C17": _t("TLC checks the Tiles ghost invariant on the decoder spec (ADV, HIST with small capacities, NOISE) and judges the event lists of the real decoder/reader in both the overflow-checked and the wrapping build, "
-              "including noise runs beyond 2^16.", "5/C17", "TLC model checking + TLC-judged trace validation (J_C17)"),
+              "including noise runs beyond 2^16.", "5/C17", "TLC model checking + Apalache inductive side-proof (ndisc + ninit = bytes since boundary, unbounded) + TLC-judged trace validation (J_C17)"),
 }
